@@ -15,7 +15,8 @@ from . import env
 
 
 class Worker:
-    def __init__(self, mode, idx, logdir):
+    def __init__(self, mode, idx, logdir, extra_env=None):
+        self.extra_env = extra_env or {}
         self.mode = mode
         self.idx = idx
         self.logdir = logdir
@@ -29,7 +30,7 @@ class Worker:
         self.log = open(self.logpath, "ab")
         self.proc = subprocess.Popen(
             [env.PY, "-m", "yadmon.worker"],
-            env=env.worker_env(self.mode),
+            env=dict(env.worker_env(self.mode), **self.extra_env),
             stdin=subprocess.PIPE,
             stdout=subprocess.PIPE,
             stderr=self.log,
@@ -113,7 +114,8 @@ class Worker:
 
 
 class Pool:
-    def __init__(self, prop, mode="jit", nworkers=None, case_timeout=600):
+    def __init__(self, prop, mode="jit", nworkers=None, case_timeout=600, extra_env=None):
+        self.extra_env = extra_env
         self.prop = prop
         self.mode = mode
         self.n = nworkers or env.NCPU
@@ -130,7 +132,7 @@ class Pool:
         done = [0]
 
         def loop(widx):
-            w = Worker(self.mode, widx, self.logdir)
+            w = Worker(self.mode, widx, self.logdir, self.extra_env)
             try:
                 while True:
                     if deadline is not None and time.time() > deadline:
